@@ -6,7 +6,7 @@
 (* one chunk region stays open per level) - and collections holding n       *)
 (* smart-pointer elements.  The other universes nest at most four levels    *)
 (* and hold at most four elements, so a fixed-capacity stack or a counter   *)
-(* that is not restored (seeded S38, S43) stayed invisible.  Far below      *)
+(* that is not restored (seeded S38, S42) stayed invisible.  Far below      *)
 (* these depths nothing in the format or the documentation sets a limit;    *)
 (* the process stack does, at depths several orders of magnitude larger     *)
 (* (DESIGN 7, D15).  One TLC state per (family, depth).                     *)
